@@ -8,3 +8,13 @@ check("C01", "exploration",
       "Trusted: the independent reference codec harness/internal/ref (validated by agreeing with the library on thousands of shapes; a disagreement is inspected by hand before being believed), Go reflection for reading typed columns.",
       "runtime monitoring: generated round-trip executions checked against an independent reference decoder (differential oracle), two builds",
       "DESIGN.md 3/C01")
+check("C17", "exploration",
+      "Encodes every protocol message with the real library for generated field values at every revision of a set containing each feature threshold and both its neighbours (thorough: every revision 50000..54500), compares the bytes with an independent reference encoder (which pins each field to exactly its threshold in both directions), decodes them back with the library (equality + exact consumption) and with the reference decoder. Held = no disagreement on the generated (message, revision) pairs; three library limitations are recorded as known findings.",
+      "Trusted: the reference message codec harness/internal/ref/messages.go and its own copy of the protocol thresholds.",
+      "runtime monitoring: differential execution of encoders/decoders against an independent reference codec over all revisions",
+      "DESIGN.md 3/C17")
+check("C14", "exploration",
+      "Drives the real proto.Writer with every operation history up to a bounded length (exhaustive) and long random histories, in lock-step with a list model; a recording sink shows exactly which bytes reached the underlying writer per flush, including partial/failing writes; caller memory is poisoned after each flush to expose late reads. Also WriteColumn+Flush == EncodeColumn for every catalogue column. Held = model and sink agree on every history run.",
+      "Trusted: the 20-line list model; net.Buffers.WriteTo semantics for plain io.Writers.",
+      "runtime monitoring: lock-step model-based execution with a recording sink, exhaustive over bounded histories",
+      "DESIGN.md 3/C14")
